@@ -16,7 +16,7 @@ PROPS["C16"] = {
     "level": "exploration",
     "technique": "model-based stateful property testing (rapid t.Repeat) against map[uint64]V + backing-array invariant scan; sampled concurrent runs under -race",
     "level_text": ("Generated operation sequences on the three table layers are compared step by step with a Go map and the raw probe arrays are scanned for ghosts/duplicates/miscounts; "
-                   "capacity, self-eviction, CAS/CAD identity semantics and Len==reachable after quiescence are asserted. Exploration, not proof: sequences are sampled (tens of thousands per run) and concurrent schedules are whatever the scheduler produces."),
+                   "capacity, self-eviction, CAS/CAD identity semantics and Len==reachable after quiescence are asserted. Exploration, not proof: sequences are sampled (tens of thousands per run) and concurrent schedules are whatever the scheduler produces. Unit 'limiterstore' runs the same kind of reference-map history against the rate limiters' store (bounds 1-64 with exact oldest-entry eviction, bounds above 1000 pre-filled so that the sampled eviction path is taken): the limiter Get just created is the one the next Get finds, an insert at the bound makes exactly one other key unreachable, distinct keys never share a limiter, Len() equals the reachable entries."),
     "level_note": "Trusted: Go's builtin map as the reference, rapid's generators/shrinker. Not covered: schedule enumeration; 'never wait on a global lock' only via the parked-writer consequence.",
     "rule": ("rapid state machines (t.Repeat, ~100 ops) over UInt64Map / SegmentUInt64Map / Cache against map[uint64]V with keys aimed at "
              "one 3-slot window of the probe array, chosen segments, 0 and extremes; invariant after every op = model equality + backing-array scan "
@@ -39,6 +39,9 @@ PROPS["C16"] = {
                        "tiers": {"quick": T(60, 3, timeout=300), "thorough": T(1500, 4, timeout=3000)}},
         "nogloballock": {"pkg": "./internal/cache", "run": "^TestVerifC16NoGlobalLock$", "engine": "gotest",
                          "tiers": {"quick": T(1, 1, timeout=300), "thorough": T(1, 1, timeout=300)}},
+        "limiterstore": {"pkg": "./middleware/ratelimit", "run": "^TestVerifC16LimiterStore$",
+                         "tiers": {"quick": T(1500, 2, timeout=300), "thorough": T(60000, 4, timeout=3000)},
+                         "floors": {"C16.limiterstore": {"insert-at-the-bound": 0.5, "sampled-eviction-path": 0.15}}},
     },
 }
 
